@@ -384,7 +384,7 @@ func main() {
 		QuickBudget:    150 * time.Second,
 		ThoroughBudget: 25 * time.Minute,
 		Expect: func(tier string) []string {
-			e := []string{"mode=bgv", "mode=bfv", "t=97", "t=17-gap2", "t=17-gap4", "t=17-gap8", "relin=no-P-no-base2", "pattern=mini-mini-mini", "t=65537", "t=30bit", "t=60bit", "scales=mismatched", "scales=equal",
+			e := []string{"mode=bgv", "mode=bfv", "t=97", "t=17-gap2", "t=17-gap4", "t=17-gap8", "t=45bit-above-chain-primes", "relin=no-P-no-base2", "pattern=mini-mini-mini", "t=65537", "t=30bit", "t=60bit", "scales=mismatched", "scales=equal",
 				"levels=different", "levels=equal", "budget=exceeded", "rescale=nop-bfv", "spine=reached-level-0", "pattern=spine", "pattern=qmul-boundary",
 				"qmul-judged=logN=10", "qmul-judged=logN=4", "qmul-ring=logN=10 slots=8", "qmul-ring=logN=10 slots=16", "qmul-ring=logN=10 slots=1024",
 				"qmul-ring=logN=4 slots=8", "qmul-ring=logN=4 slots=16"}
